@@ -292,17 +292,27 @@ done:
 static ares_status_t config_search(ares_sysconfig_t *sysconfig, const char *str,
                                    size_t max_domains)
 {
-  if (sysconfig->domains && sysconfig->ndomains > 0) {
-    /* if we already have some domains present, free them first */
-    ares_strsplit_free(sysconfig->domains, sysconfig->ndomains);
-    sysconfig->domains  = NULL;
-    sysconfig->ndomains = 0;
+  static const char delims[]  = ", ";
+  char            **domains  = NULL;
+  size_t            ndomains = 0;
+
+  /* A value without a single domain in it (empty, or nothing but separators)
+   * is a malformed entry.  Ignore it like any other line we can't make sense
+   * of: ares_strsplit() returns NULL for it, which must not be mistaken for an
+   * out of memory condition as that aborts reading the system configuration. */
+  if (str[strspn(str, delims)] == 0) {
+    return ARES_SUCCESS;
   }
 
-  sysconfig->domains = ares_strsplit(str, ", ", &sysconfig->ndomains);
-  if (sysconfig->domains == NULL) {
+  domains = ares_strsplit(str, delims, &ndomains);
+  if (domains == NULL) {
     return ARES_ENOMEM;
   }
+
+  /* if we already have some domains present, free them first */
+  ares_strsplit_free(sysconfig->domains, sysconfig->ndomains);
+  sysconfig->domains  = domains;
+  sysconfig->ndomains = ndomains;
 
   /* Truncate if necessary */
   if (max_domains && sysconfig->ndomains > max_domains) {
